@@ -1135,8 +1135,20 @@ class Engine:
                     tuple((k, tuple(self.digest(x, depth + 1) for x in p.items)) for k, p in sorted(v.payload.items())))
         if v is UNINIT:
             return ('uninit',)
+        if isinstance(v, SliceRef):
+            c = v.cont
+            base = ('O', c.oid) if (c.oid < fb or getattr(c, 'persistent', False)) else self.digest(c, depth + 1)
+            return ('slice', base, self.digest(v.start, depth + 1), self.digest(v.length, depth + 1))
+        if isinstance(v, Closure):
+            return ('closure', v.fn) + tuple(self.digest(x, depth + 1) for x in v.captures)
         if hasattr(v, 'oid'):
             return ('O', v.oid)
+        if v is None or isinstance(v, (bytes, str, int, float)):
+            return ('v', v)
+        if isinstance(v, (tuple, list)):
+            return ('t',) + tuple(self.digest(x, depth + 1) for x in v)
+        # identity of a python object: keep it alive, or its id could be handed to another object later
+        self.uni.alive.append(v)
         return ('id', id(v))
 
 
